@@ -16,6 +16,7 @@ A stub replaces one FFI call (`svd_flat`, `np.linalg.qr`, `qr_li`, `np.linalg.ei
     eig      A V = V diag(W), columns of V normalised
     eigvals(h)  the W of eig(h)   (functional consistency)
     expm     unconstrained, but functional (same block -> same symbols) and expm(0) = 1
+    speigs   min(k, d) eigenpairs of the given block: A V = V diag(W), columns normalised (tools.math.speigs / ARPACK)
 
 Equalities are registered with ``ctx.assume_zero`` (kept out of the branch-feasibility context, used as hypotheses
 by ``prove`` / ``prove_eq``), order / sign constraints on the fresh real symbols go to the branch context.
@@ -526,6 +527,47 @@ def make_expm(orig):
     return expm
 
 
+def make_speigs(orig):
+    """stub for tenpy.tools.math.speigs (= np_conserved._sp_speigs; ARPACK or dense eig for small blocks): min(k, d) fresh
+    eigenpairs of the block it is GIVEN: A V = V diag(W), columns of V normalised; no ordering (`which` is not modelled).
+    The blocks handed over are recorded in ctx._speigs_blocks."""
+
+    def speigs(A_, k, *args, **kwargs):
+        if not is_obj(A_):
+            return orig(A_, k, *args, **kwargs)
+        ctx = _ctx()
+        A = _lift(A_)
+        d = A.shape[0]
+        if A.shape != (d, d):
+            raise ValueError('A.shape not a square matrix: ' + str(A.shape))
+        ctx.__dict__.setdefault('_speigs_blocks', []).append(A)
+        kk = min(int(k), d)
+        ret_eigv = kwargs.get('return_eigenvectors', args[7] if len(args) > 7 else True)
+        memo = _memo(ctx)
+        key = _akey(A, 'speigs', kk)
+        WV = memo.get(key)
+        if WV is None:
+            W = np.empty((kk, ), dtype=object)
+            for i in range(kk):
+                W[i] = ctx.fresh(f'speigsW_{i}', True)
+            V = fresh_matrix(ctx, 'speigsV', (d, kk), True)
+            if kk:
+                _assume_zero_matrix(ctx, _mm(A, V) - V * W[np.newaxis, :])
+            for i in range(kk):
+                t = _zero()
+                for j in range(d):
+                    t = t + V[j, i].abs2()
+                ctx.assume_zero(t - 1)
+            _hint_identity(ctx, V)
+            _hint_values(ctx, W, [(f"{2 * i + 1}/2", f"{i + 1}/3") for i in range(kk)])
+            WV = memo[key] = (W, V)
+        if ret_eigv:
+            return WV[0].copy(), WV[1].copy()
+        return WV[0].copy()
+
+    return speigs
+
+
 class _ScipyLinalgFacade:
 
     def __init__(self, orig, overrides):
@@ -569,9 +611,11 @@ def install(npc=None):
         eigvalsh=make_eigvalsh(np.linalg.eigvalsh),
         eigvals=make_eigvals(np.linalg.eigvals),
         expm=make_expm(scipy.linalg.expm),
+        speigs=make_speigs(npc._sp_speigs),
     )
     npc.svd_flat = fns['svd_flat']
     npc.qr_li = fns['qr_li']
+    npc._sp_speigs = fns['speigs']
     npc.anynan = lambda a: False if is_obj(a) else bool(np.isnan(np.sum(a)))
     npc.scipy = _ScipyFacade(scipy, _ScipyLinalgFacade(scipy.linalg, {'expm': fns['expm']}))
     npc.np = stubs.NumpyFacade(widen=True, linalg_overrides={k: fns[k] for k in ('qr', 'eigh', 'eig', 'eigvalsh', 'eigvals')})
